@@ -23,6 +23,7 @@ class Loop:
         self.n = n
         self.iter = None
         self.invariants = []
+        self.invariants_xb = []
         self.decreases = []
         self.ensures = []
         self.is_invariant_except_break = False
@@ -160,8 +161,7 @@ def parse_file(path):
             elif d == 'invariant':
                 section = 'invariant'
             elif d == 'invariant_except_break':
-                section = 'invariant'
-                curloop.is_invariant_except_break = True
+                section = 'invariant_xb'
             elif d == 'loop_ensures':
                 section = 'loopensures'
             elif d == 'decreases':
@@ -204,6 +204,8 @@ def parse_file(path):
                 cur.ensures.append(curclause)
             elif section == 'invariant':
                 curloop.invariants.append(curclause)
+            elif section == 'invariant_xb':
+                curloop.invariants_xb.append(curclause)
             elif section == 'decreases':
                 curloop.decreases.append(curclause)
             elif section == 'loopensures':
